@@ -134,7 +134,7 @@ def explain(m, trace_path=None, context=6):
     lines = []
     if trace_path:
         tr = load_trace(trace_path)
-        prog = [e for e in tr[: m["line"]] if e.get("p") == m["p"] and e["ev"] == "cmd"]
+        prog = [e for e in tr[: m["line"]] if e.get("p") == m["p"] and e["ev"] in ("cmd", "setup")]
         for e in prog[-context - 1:-1]:
             lines.append("      %s -> %s" % (show_argv(e["argv"]), show_reply(e["reply"])))
     lines.append("   >> %s -> got %s" % (show_argv(m["argv"]), show_reply(m["got"])))
@@ -146,7 +146,7 @@ def explain(m, trace_path=None, context=6):
 def replay_of(m, trace_path):
     """Self-contained replay artefact: the programme prefix up to and including the failing command."""
     tr = load_trace(trace_path)
-    prog = [e for e in tr[: m["line"]] if e.get("p") == m["p"] and e["ev"] == "cmd"]
+    prog = [e for e in tr[: m["line"]] if e.get("p") == m["p"] and e["ev"] in ("cmd", "setup")]
     return {"programme": [show_argv(e["argv"]) for e in prog],
             "programme_bytes": [e["argv"] for e in prog],
             "observed_reply": m["got"], "model_outcomes": m["exp"]}
